@@ -472,3 +472,32 @@ func MakeRoute(rng *rand.Rand, class string, t *Topology, ci ConnInst) []string 
 	}
 	return perm()
 }
+
+// SoloReceiverID is the receiver of the structure AddSoloPipeline appends.
+const SoloReceiverID = TypeReceiver + "/solo"
+
+// AddSoloPipeline appends a receiver that feeds exactly ONE pipeline of the signal whose first
+// processor declares MutatesData and really mutates (plus 0–1 further processors) and that has one or
+// two exporters of its own; with refuseFirst the first exporter refuses its first call (fail_first),
+// so that a receiver which re-sends the same payload object meets a pipeline that has already seen —
+// and, with two exporters, marked read-only — that object. Exporters keep what they accept.
+func AddSoloPipeline(rng *rand.Rand, t *Topology, sig Signal, refuseFirst bool) {
+	t.Receivers[SoloReceiverID] = nil
+	t.Processors[TypeProcessor+"/solo"] = nil // mutates: true by default
+	p := Pipeline{Signal: sig, Name: "solo", Receivers: []string{SoloReceiverID}, Processors: []string{TypeProcessor + "/solo"}}
+	if rng.Intn(2) == 0 {
+		t.Processors[TypeProcessor+"/solo2"] = map[string]any{"mutates": rng.Intn(2) == 0}
+		p.Processors = append(p.Processors, TypeProcessor+"/solo2")
+	}
+	first := map[string]any{"keep": true}
+	if refuseFirst {
+		first["fail_first"] = true
+	}
+	t.Exporters[TypeExporter+"/solo1"] = first
+	p.Exporters = []string{TypeExporter + "/solo1"}
+	if rng.Intn(3) > 0 {
+		t.Exporters[TypeExporter+"/solo2"] = map[string]any{"keep": true, "read_async": rng.Intn(2) == 0}
+		p.Exporters = append(p.Exporters, TypeExporter+"/solo2")
+	}
+	t.Pipelines = append(t.Pipelines, p)
+}
